@@ -236,7 +236,7 @@ func c17StreamOne(c *mc.Ctx, k c17Stream, enc []byte) {
 		bad("source-error-not-matchable", "the failure %q (%T) does not match the source's error under errors.Is", err, err)
 		return
 	}
-	if k.Env.Err >= 2 && !errors.Is(err, errX) {
+	if (k.Env.Err == 2 || k.Env.Err == 3) && !errors.Is(err, errX) {
 		bad("source-error-not-matchable", "the failure %q does not match the wrapped sentinel under errors.Is", err)
 	}
 }
@@ -400,7 +400,7 @@ func init() {
 					enc, _ := hex.DecodeString(k.ValueHex)
 					// the stale-state scenario needs a predecessor: run the same case once with another error value first
 					prev := k
-					prev.Env.Err = (k.Env.Err + 1) % len(termErrs)
+					prev.Env.Err = (k.Env.Err + len(termErrs) - 1) % len(termErrs) // the predecessor in the enumeration order
 					cc := mc.NewCtx("C17", "quick", 0, 1, 0, 1<<40)
 					c17StreamOne(cc, prev, enc)
 					c17StreamOne(c, k, enc)
